@@ -126,6 +126,15 @@ CHECKS = {
         'facts), every column of an operator row is a grid node for all grid sizes. Searched, not proved: memory safety at large.',
    note='Trusted: Coq kernel, translator T8, valgrind/sanitizers only as failure search. F7 repaired by a fix: commit.',
    design='5/C20'),
+ 'C18': dict(
+   technique='Coq proof on a hand model of the grid constructor (window index arithmetic of the anisotropic division for every accepted parameter triple, exact-cover of the output, level-count soundness by induction, uniform / midpoint / bisection divisions over the reals) + K-gridgen correspondence through a guarded trace hook + ASan/UBSan sweep as failing-input search',
+   text='PARTIAL. Proved for all parameters: every accepted (nr_exp, anisotropic_factor, floor(nr*percentage)) keeps all reads of the anisotropic division in bounds and its three output segments '
+        'tile the result exactly; without the guard it does not (F5, repaired by a fix: commit); the level count setup reports is admitted by the grid (every coarsening step defined); '
+        'uniform radii start at R0, end at Rmax, increase strictly; midpoint refinement and divideBy2 bisection keep order and ends, nest, and produce midpoints; angles are uniform and '
+        'antipodally paired. Evaluated on the implementation in exact arithmetic, not proved: validity of the radii of anisotropic grids (the std::set of refined doubles is not modelled), '
+        'the file round trip (iostream), absence of out-of-bounds accesses outside the modelled index arithmetic (sanitizer sweep).',
+   note='Trusted: Coq kernel (classical real-number axioms of the standard library through Reals), hand model tied by K-gridgen, guarded trace hook, extraction.',
+   design='5/C18'),
 }
 NA_REASON = 'check not built yet in this revision of /verif (design in DESIGN.md section 5); not claimed'
 
@@ -153,7 +162,7 @@ def main():
             'guard': 'GMGPOLAR_VERIF',
             'enable': 'harness/CMakeLists.txt compiles every source file of /repo with -DGMGPOLAR_VERIF into /verif/build/harness',
             'baseline_off_cmd': 'cmake -G Ninja -S /repo -B /repo/_build >/dev/null && cmake --build /repo/_build -j16 && ctest --test-dir /repo/_build -j8 --timeout 900',
-            'source_commits': [],
+            'source_commits': ['46aa74f', '7d725d3', '5c9095f'],
             'add_only': True,
         },
         'engines': [{'name': 'coq-proof+correspondence', 'path': 'check',
